@@ -280,7 +280,7 @@ def run(rep, tier, seed):
     if tier == 'quick':
         names, init_limit, max_states, gcap = ['keydoor.5x5', 'keydoor.7x7'], 300, 40000, 6
     else:
-        names, init_limit, max_states, gcap = ['keydoor.5x5', 'keydoor.7x7', 'keydoor.9x9'], 1000, 150000, None
+        names, init_limit, max_states, gcap = ['keydoor.5x5', 'keydoor.7x7'], 600, 60000, 16
     rs, rt = dyn.run_reach(rep, names, init_limit, max_states, make_hooks, replay, 'door_protocol', group_cap=gcap, lineages=2 if tier == 'quick' else 3)
     sb = 0
     nested = [U.box(U.box(U.key(U.C1))), U.box(U.key(U.C1)), U.box(U.box(U.box(U.FLOOR))), U.door(1, U.C1), U.door(2, U.C1)]
